@@ -2,24 +2,133 @@
     [TB "CONN"; TI c]                         -> [TI 1]
     [TB "CLOSE"; TI c]                        -> []
     [TB "SLEEP"; TI ms]                       -> []
-    [TB "CMD"; TI c; TI t; request frame; (oracle frame)] -> canonical reply frame *)
-From Ferrous Require Import Base.Bytes Model.Resp Model.Types Model.Server Model.RunBase.
+    [TB "CMD"; TI c; TI t; request frame; (oracle frame)] -> canonical reply frame
+    [TB "SUBCMD"; TI c; TI t; request frame]  -> [TI closed; every frame connection c has received and
+                                                  not read yet, incl. what this request produces]
+    [TB "DRAIN"; TI c; TI t]                  -> [TI 0; frames pushed to c and not read yet]
+    [TB "SUBRAW"; TI c; TI t; TB bytes]       -> as RAW with one chunk (the harness delimits by a marker)
+    The runner keeps, per connection, the frames the server has written and the client has not
+    read yet ([outbox]): CMD reads exactly one frame, so after a PUBLISH that reaches the
+    publisher itself, or a SUBSCRIBE with several channels, later reads see the leftovers. *)
+From Ferrous Require Import Base.Bytes Model.Resp Model.Types Model.Server Model.Conn Model.RunBase.
 Open Scope Z_scope.
 
-Definition srv_op (s : server) (op : list tok) : list tok * server :=
+(** replies inside an EXEC array are canonicalised by the queued command's name *)
+Fixpoint canon_zip (q : list (list frame)) (l : list frame) : list frame :=
+  match q, l with
+  | parts :: q', x :: l' => canon_reply (req_name (FArray parts)) x :: canon_zip q' l'
+  | _, _ => l
+  end.
+Definition canon_exec (s : server) (c : Z) (name : bytes) (r : frame) : frame :=
+  if beq name (bs "EXEC") then
+    match r, zlookup c (s_conns s) with
+    | FArray l, Some cn => if len l =? len (c_queue cn) then canon_reply name (FArray (canon_zip (c_queue cn) l))
+                           else canon_reply name r
+    | _, _ => canon_reply name r
+    end
+  else canon_reply name r.
+
+(** a full sweeper pass: every database, collect then delete at the same instant *)
+Definition sweep_db_at (now : Z) (dt : db * tracker) : db * tracker :=
+  sweep_delete now (fst dt) (snd dt) (sweep_collect now (fst dt)).
+Definition sweep_all (now : Z) (s : server) : server :=
+  let dts := map (sweep_db_at now) (combine (s_dbs s) (s_trk s)) in
+  {| s_dbs := map fst dts; s_trk := map snd dts; s_conns := s_conns s;
+     s_password := s_password s; s_aof := s_aof s; s_pubsub := s_pubsub s |}.
+
+Definition conn_buf (c : Z) (bufs : unit) : bytes := [].
+Definition bufs : unit := tt.
+
+Definition outbox := list (Z * list frame).
+Definition ob_get (o : outbox) (c : Z) : list frame := match zlookup c o with Some l => l | None => [] end.
+Definition ob_put (o : outbox) (c : Z) (l : list frame) : outbox := zset_ c l o.
+Fixpoint ob_push_all (o : outbox) (l : list (Z * frame)) : outbox :=
+  match l with
+  | [] => o
+  | (c, f) :: r => ob_push_all (ob_put o c (ob_get o c ++ [f])) r
+  end.
+
+(** canonical order of pushed frames: the pmessage frames one PUBLISH delivers to one connection
+    come in HashMap order of the pattern map - each maximal run of consecutive pmessage frames
+    with the same channel and payload is sorted by pattern (mirrored in srv.rs canon_pushes) *)
+Definition is_pmsg (f : frame) : option (bytes * bytes * bytes) :=
+  match f with
+  | FArray [FBulk k; FBulk p; FBulk ch; FBulk m] => if beq k (bs "pmessage") then Some (p, ch, m) else None
+  | _ => None
+  end.
+Fixpoint pmsg_insert (p ch m : bytes) (f : frame) (l : list frame) : list frame :=
+  match l with
+  | g :: r =>
+      match is_pmsg g with
+      | Some (p2, ch2, m2) => if beq ch ch2 && beq m m2 && negb (bleb p p2) then g :: pmsg_insert p ch m f r else f :: l
+      | None => f :: l
+      end
+  | [] => [f]
+  end.
+Fixpoint canon_pushes (l : list frame) : list frame :=
+  match l with
+  | [] => []
+  | f :: r => match is_pmsg f with
+              | Some (p, ch, m) => pmsg_insert p ch m f (canon_pushes r)
+              | None => f :: canon_pushes r
+              end
+  end.
+Definition enc_drained (closed : bool) (l : list frame) : list tok :=
+  TI (if closed then 1 else 0) :: enc_frames (map canon (canon_pushes l)).
+
+(** one request of connection c read alone: the server state, and the outbox after the frames it
+    produced were written (own frames after whatever c had not read yet) *)
+Definition step_request (t : Z) (s : server) (ob : outbox) (c : Z) (req : frame) (oracle : option frame)
+  : server * outbox :=
+  match process_frame_multi t s c req oracle with
+  | (own, others, s') =>
+      let s2 := if is_quit req then close_conn s' c else s' in
+      (s2, ob_push_all (ob_put ob c (ob_get ob c ++ own)) others)
+  end.
+
+(** [BIG] (C05, the reply path under partial writes): a [size]-byte value with every byte
+    value, CR, LF and reply look-alikes at position-dependent places; SET, then [count] GETs
+    and a PING in one pipeline read by a client that starts reading late.  Bulk replies are
+    reported as (length, 32-bit position-sensitive checksum of the payload). *)
+Definition big_byte (seed i : Z) : Z := (i * 7 + i / 251 + seed) mod 256.
+Definition big_value (seed size : Z) : bytes :=
+  if size <=? 0 then [] else
+  snd (Pos.iter (fun st => let i := fst st - 1 in (i, big_byte seed i :: snd st)) (size, []) (Z.to_pos size)).
+Definition digest32 (v : bytes) : Z := fold_left (fun h b => Z.land (h * 33 + b) 4294967295) v 5381.
+Definition digest_frame (f : frame) : list tok :=
+  match f with
+  | FBulk v => [TI 3; TI (len v); TI (digest32 v)]
+  | _ => enc_frame f
+  end.
+Fixpoint big_gets (n : nat) (t : Z) (s : server) (ob : outbox) (c : Z) (req : frame) : server * outbox :=
+  match n with
+  | O => (s, ob)
+  | S n' => match step_request t s ob c req None with (s', ob') => big_gets n' t s' ob' c req end
+  end.
+
+Definition srv_op (so : server * outbox) (op : list tok) : list tok * (server * outbox) :=
+  let (s, ob) := so in
   match op with
   | TB name :: rest =>
-      if beq name (bs "CONN") then
+      if beq name (bs "SERVER") then
+        (* [TB "SERVER"; TB password ("" = none)]: (re)start with this configuration *)
         match rest with
-        | TI c :: _ => ([TI 1], set_conn s c new_conn)
-        | _ => ([TB (bs "BADOP")], s)
+        | TB pw :: _ => ([], (init_server (match pw with [] => None | _ => Some pw end), []))
+        | _ => ([TB (bs "BADOP")], so)
+        end
+      else if beq name (bs "CONN") then
+        match rest with
+        | TI c :: _ => ([TI 1], (connect s c, ob_put ob c []))
+        | _ => ([TB (bs "BADOP")], so)
         end
       else if beq name (bs "CLOSE") then
         match rest with
-        | TI c :: _ => ([], {| s_dbs := s_dbs s; s_conns := zremove c (s_conns s) |})
-        | _ => ([TB (bs "BADOP")], s)
+        (* the client closes its socket: the server reads EOF, marks the connection Closing and
+           cleanup_connections removes it with its subscriptions *)
+        | TI c :: _ => ([], (close_conn s c, ob_put ob c []))
+        | _ => ([TB (bs "BADOP")], so)
         end
-      else if beq name (bs "SLEEP") then ([], s)
+      else if beq name (bs "SLEEP") then ([], so)
       else if beq name (bs "CMD") then
         match rest with
         | TI c :: TI t :: ft =>
@@ -27,20 +136,122 @@ Definition srv_op (s : server) (op : list tok) : list tok * server :=
             | Some (req, ft') =>
                 let oracle := match dec_frame (S (length ft')) ft' with
                               | Some (o, _) => Some o | None => None end in
-                match process_frame t s c req oracle with
-                | (r, s') => (enc_frame (canon_reply (req_name req) r), s')
+                match zlookup c (s_conns s) with
+                | None => ([TB (bs "CLOSED")], so)
+                | Some _ =>
+                    match step_request t s ob c req oracle with
+                    | (s', ob') =>
+                        (* the client reads exactly one frame *)
+                        match ob_get ob' c with
+                        | r :: rest_frames => (enc_frame (canon_exec s c (req_name req) r), (s', ob_put ob' c rest_frames))
+                        | [] => ([TB (bs "TIMEOUT")], (s', ob'))
+                        end
+                    end
                 end
-            | None => ([TB (bs "BADFRAME")], s)
+            | None => ([TB (bs "BADFRAME")], so)
             end
-        | _ => ([TB (bs "BADOP")], s)
+        | _ => ([TB (bs "BADOP")], so)
         end
-      else ([TB (bs "BADOP")], s)
-  | _ => ([TB (bs "BADOP")], s)
+      else if beq name (bs "BIG") then
+        match rest with
+        | TI c :: TI t :: TB key :: TI seed :: TI size :: TI count :: _ =>
+            match zlookup c (s_conns s) with
+            | None => ([TB (bs "CLOSED")], so)
+            | Some _ =>
+                let v := big_value seed size in
+                match step_request t s ob c (FArray [FBulk (bs "SET"); FBulk key; FBulk v]) None with
+                | (s1, ob1) =>
+                    match big_gets (Z.to_nat count) t s1 ob1 c (FArray [FBulk (bs "GET"); FBulk key]) with
+                    | (s2, ob2) =>
+                        match step_request t s2 ob2 c (FArray [FBulk (bs "PING")]) None with
+                        | (s3, ob3) => (flat_map digest_frame (ob_get ob3 c), (s3, ob_put ob3 c []))
+                        end
+                    end
+                end
+            end
+        | _ => ([TB (bs "BADOP")], so)
+        end
+      else if beq name (bs "SUBCMD") then
+        match rest with
+        | TI c :: TI t :: ft =>
+            match dec_frame (S (length ft)) ft with
+            | Some (req, _) =>
+                match zlookup c (s_conns s) with
+                | None => ([TI 1], so)           (* closed, nothing received *)
+                | Some _ =>
+                    match step_request t s ob c req None with
+                    | (s', ob') => (enc_drained (negb (has_conn s' c)) (ob_get ob' c), (s', ob_put ob' c []))
+                    end
+                end
+            | None => ([TB (bs "BADFRAME")], so)
+            end
+        | _ => ([TB (bs "BADOP")], so)
+        end
+      else if beq name (bs "DRAIN") then
+        match rest with
+        | TI c :: _ =>
+            match zlookup c (s_conns s) with
+            | None => ([TI 1], so)           (* closed, nothing received *)
+            | Some _ => (enc_drained false (ob_get ob c), (s, ob_put ob c []))
+            end
+        | _ => ([TB (bs "BADOP")], so)
+        end
+      else if beq name (bs "SWEEP") then
+        (* one full sweeper pass at model time t over all databases *)
+        match rest with
+        | TI t :: _ => ([], (sweep_all t s, ob))
+        | _ => ([TB (bs "BADOP")], so)
+        end
+      else if beq name (bs "PROBE") || beq name (bs "PROBERAW") then
+        (* C06 liveness probe: whatever the input, the server stays alive and serves a fresh connection *)
+        ([TI 1], so)
+      else if beq name (bs "RAW") || beq name (bs "SUBRAW") then
+        (* [TB "RAW"; TI c; TI t; chunks...] -> [TI closed; canonical reply frames...] *)
+        match rest with
+        | TI c :: TI t :: chunks =>
+            match zlookup c (s_conns s) with
+            | None => ([TB (bs "CLOSED")], so)
+            | Some _ =>
+                match conn_feed_x t s c (conn_buf c bufs) (dec_chunks chunks) [] [] with
+                | (out, buf', pushes, s', closed) =>
+                    match decode_out (write_replies (ob_get ob c) ++ out) with
+                    | (fs, st) =>
+                        (TI (if closed then 1 else 0) :: enc_frames (map canon (canon_pushes fs))
+                           ++ (match st with Failed => [TB (bs "GARBAGE")] | NeedMore => [] end),
+                         (s', ob_push_all (ob_put ob c []) pushes))
+                    end
+                end
+            end
+        | _ => ([TB (bs "BADOP")], so)
+        end
+      else ([TB (bs "BADOP")], so)
+  | _ => ([TB (bs "BADOP")], so)
   end.
+(** for runners without pub/sub traffic *)
+Definition srv_op_plain (s : server) (op : list tok) : list tok * server :=
+  match srv_op (s, []) op with (o, (s', _)) => (o, s') end.
 
-Fixpoint srv_ops (s : server) (ops : list (list tok)) : list (list tok) :=
+(** the sweeper stopped between its collect phase and its delete phase (gate hook):
+    [SWEEP_GATE t] collects at time t, client commands run, [SWEEP_RELEASE t'] deletes at t' *)
+Definition srv_op2 (sp : server * outbox * list (list bytes)) (op : list tok)
+  : list tok * (server * outbox * list (list bytes)) :=
+  match sp with
+  | (s, ob, pend) =>
+  match op with
+  | TB name :: TI t :: _ =>
+      if beq name (bs "SWEEP_GATE") then ([], (s, ob, map (sweep_collect t) (s_dbs s)))
+      else if beq name (bs "SWEEP_RELEASE") then
+        let dts := map (fun x => match x with (d, tr, ks) => sweep_delete t d tr ks end)
+                       (combine (combine (s_dbs s) (s_trk s)) pend) in
+        ([], ({| s_dbs := map fst dts; s_trk := map snd dts; s_conns := s_conns s;
+                 s_password := s_password s; s_aof := s_aof s; s_pubsub := s_pubsub s |}, ob, []))
+      else match srv_op (s, ob) op with (o, (s', ob')) => (o, (s', ob', pend)) end
+  | _ => match srv_op (s, ob) op with (o, (s', ob')) => (o, (s', ob', pend)) end
+  end end.
+
+Fixpoint srv_ops (sp : server * outbox * list (list bytes)) (ops : list (list tok)) : list (list tok) :=
   match ops with
   | [] => []
-  | op :: r => match srv_op s op with (o, s') => o :: srv_ops s' r end
+  | op :: r => match srv_op2 sp op with (o, sp') => o :: srv_ops sp' r end
   end.
-Definition run_srv (ops : list (list tok)) : list (list tok) := srv_ops init_server ops.
+Definition run_srv (ops : list (list tok)) : list (list tok) := srv_ops (init_server None, [], []) ops.
